@@ -1,7 +1,8 @@
 P = dict(
     harness='c16_c20_reports.cpp',
     cxxflags=['-DVF_TEAMCITY'],
-    variants=['asan'],
+    variants=['asan', 'memcheck'],
+    memcheck_stride=dict(quick=20, thorough=20),
     post='reports',
     level='exploration',
     technique='runtime monitoring: generated runs executed by the real registry/runner, byte stream captured at printBuffer / the PlatformSpecificFPuts seam, decoded offline by an independent TeamCity tokenizer and pairing automaton and compared with the ground truth; ASan/UBSan build',
